@@ -89,6 +89,7 @@ def body(c):
         if not q:
             # the bit-string arithmetic of JetLib.tla against TLC's integers: all 65 536 pairs of 8-bit operands
             c.tlc_design("MC_JetLib", "MC_JetLib.cfg", workers=16, heap="8g", timeout=5000)
+            c.tlc_design("MC_Svdw", "MC_Svdw.cfg", workers=1, heap="2g", timeout=900)
         parts = []
         for sub, n in (("jets", [12 if q else 300]), ("hashjets", [3 if q else 40]), ("ecjets", [3 if q else 24]), ("sigjets", [0 if q else 6]),
                        ("eljets", [3 if q else 30, 0 if q else 4])):
@@ -105,7 +106,7 @@ def body(c):
         "TLC: every reachable DAG up to 3 (4) nodes over all executable combinators, word constants and three jets, principal "
         "typing instantiated by K schemes, all inputs, witness/word values, memory fill 0/1, every machine step a state "
         "(frame/bound/semantic invariants); each finished run replayed on BitMachine (twice: zeroed and 0xFF-filled memory); "
-        "plus recorded runs of generated programs validated by TLC; 364 of the 368 Core jets (arithmetic, logic, comparison, shifts, division, slicing, hashing and its contexts, lock parsing, secp256k1 field / scalar / point arithmetic, BIP-340 verification) are specified in JetLib.tla / Sha256.tla / Secp.tla; (arithmetic, logic, comparison, shifts, division, slicing, padding) are specified as "
+        "plus recorded runs of generated programs validated by TLC; all 368 Core jets (arithmetic, logic, comparison, shifts, division, slicing, hashing and its contexts, lock parsing, secp256k1 field / scalar / point arithmetic, BIP-340 verification) are specified in JetLib.tla / Sha256.tla / Secp.tla; (arithmetic, logic, comparison, shifts, division, slicing, padding) are specified as "
         "bit-string functions (JetLib.tla) and judged on every recorded visit and on patterned and random inputs of their own"))
 
 def record_part(c, pid, q):
